@@ -3342,14 +3342,17 @@ func checkC16BlockKeepsChain(c *Ctx, r *Rule) {
 // nor knows them to be absent drops bound values while the placeholders stay in the text.  Decided by path
 // enumeration with path-sensitive facts over every exported *DB method with a variadic interface{} parameter.
 func checkC01ArgsUsed(c *Ctx) {
+	checkArgsUsed(c, c.Rule("C01.args-used", "exported *DB methods hand their variadic arguments on, on every path that has not established that there are none", 10), nil)
+}
+
+func checkArgsUsed(c *Ctx, r *Rule, only map[string]bool) {
 	p := c.P
-	r := c.Rule("C01.args-used", "exported *DB methods hand their variadic arguments on, on every path that has not established that there are none", 10)
 	dbT := p.Named(pkgGorm, "DB")
 	ptr := types.NewPointer(dbT)
 	ms := types.NewMethodSet(ptr)
 	for i := 0; i < ms.Len(); i++ {
 		m, _ := ms.At(i).Obj().(*types.Func)
-		if m == nil || !m.Exported() {
+		if m == nil || !m.Exported() || (only != nil && !only[m.Name()]) {
 			continue
 		}
 		sig := m.Type().(*types.Signature)
@@ -3911,4 +3914,452 @@ func checkC03FreshRow(c *Ctx) {
 	if n == 0 {
 		r.Bad(f.Name(), "row loop", f.Body.Pos(), "no row loop handing a value to scanIntoStruct found in gorm.Scan; rule lost its anchor")
 	}
+}
+
+// C11.key-verbatim: parents are filed and children looked up under utils.ToStringKey of their key values; the key
+// text must distinguish whatever the database distinguishes.  Decided: ToStringKey returns the plain strings.Join of
+// the rendered values - no case folding, trimming or other string transformation is applied to the key.
+func checkC11KeyVerbatim(c *Ctx) {
+	p := c.P
+	r := c.Rule("C11.key-verbatim", "utils.ToStringKey returns the verbatim join of the rendered key values (no folding of the key text)", 1)
+	f := p.FuncDecl(pkgUtils, "ToStringKey")
+	c.Touch(f)
+	info := f.Pkg.TypesInfo
+	n := 0
+	ast.Inspect(f.Body, func(x ast.Node) bool {
+		rs, ok := x.(*ast.ReturnStmt)
+		if !ok || len(rs.Results) != 1 {
+			return true
+		}
+		n++
+		e := unparen(rs.Results[0])
+		if d := resolveLocal(f, e); d != nil {
+			e = unparen(d)
+		}
+		ce, isCall := e.(*ast.CallExpr)
+		okv := isCall && calleeName(info, ce) == "strings.Join"
+		r.Check(okv, f.Name(), "key text", rs.Pos(), "strings.Join(rendered values, sep)", "ToStringKey passes the joined key through `"+types.ExprString(e)+"`: keys the database distinguishes (e.g. by letter case) fall into one identity bucket and preload attaches the rows of one parent to another")
+		return true
+	})
+	if n == 0 {
+		r.Bad(f.Name(), "key text", f.Body.Pos(), "ToStringKey has no return; rule lost its anchor")
+	}
+}
+
+// C12.chain-result: the chain methods of *DB (Where, Select, Omit, Order, Joins, ... everything declared in
+// chainable_api.go, plus Session/WithContext/Debug/Unscoped) return the handle that carries their effect; called on a
+// Session handle they leave the receiver untouched.  A call whose result is discarded is a no-op - e.g.
+// `tx.Omit(clause.Associations)` instead of `tx = tx.Omit(...)` silently saves the associations of association
+// targets.  Decided over all repository packages: no chain-method call stands alone as a statement.
+func checkChainResult(c *Ctx, r *Rule) {
+	p := c.P
+	dbT := p.Named(pkgGorm, "DB")
+	chain := map[*types.Func]bool{}
+	for i := 0; i < dbT.NumMethods(); i++ {
+		m := dbT.Method(i)
+		sig := m.Type().(*types.Signature)
+		if sig.Results().Len() != 1 || !types.Identical(sig.Results().At(0).Type(), types.NewPointer(dbT)) {
+			continue
+		}
+		src := p.SrcOpt(m)
+		if src == nil {
+			continue
+		}
+		file := p.Fset.Position(src.Body.Pos()).Filename
+		if strings.HasSuffix(file, "chainable_api.go") || m.Name() == "Session" || m.Name() == "WithContext" || m.Name() == "Debug" {
+			chain[m] = true
+		}
+	}
+	used, bad := 0, 0
+	for _, f := range p.FuncsOf(pkgGorm, pkgCallbacks, pkgMigrator, pkgSchema) {
+		if f.Body == nil {
+			continue
+		}
+		info := f.Pkg.TypesInfo
+		ast.Inspect(f.Body, func(n ast.Node) bool {
+			if fl, ok := n.(*ast.FuncLit); ok && fl != f.Lit {
+				return false
+			}
+			switch x := n.(type) {
+			case *ast.ExprStmt:
+				if ce, ok := unparen(x.X).(*ast.CallExpr); ok {
+					if fn, _ := typeutil.Callee(info, ce).(*types.Func); fn != nil && chain[fn] && receiverIsHandle(p, f, info, ce) {
+						bad++
+						c.Touch(f)
+						r.Bad(f.Name(), "discarded result of "+fn.Name(), ce.Pos(), "the result of the chain method "+fn.Name()+" is discarded: on a Session handle the call changes nothing - the condition / selection it was meant to add is silently missing from the statement that follows")
+					}
+				}
+			case *ast.CallExpr:
+				if fn, _ := typeutil.Callee(info, x).(*types.Func); fn != nil && chain[fn] {
+					used++
+				}
+			}
+			return true
+		})
+	}
+	if bad == 0 {
+		r.OK("gorm", "chain-method calls", token.NoPos, fmt.Sprintf("%d calls, every result used", used))
+	}
+	if used < 20 {
+		r.Unknown("gorm", "chain-method calls", token.NoPos, "fewer chain-method calls found than expected; rule lost its anchor")
+	}
+}
+
+// C13.assoc-distinct: when a slice of parents is saved, the belongs-to / has-one records several parents share are
+// saved (and their hooks fired) ONCE: the savers build, next to the full list used to set the references, a
+// de-duplicated list filled under an identity-map test, and that list is what saveAssociations receives.
+func checkC13AssocDistinct(c *Ctx) {
+	p := c.P
+	r := c.Rule("C13.assoc-distinct", "association savers hand saveAssociations the de-duplicated list wherever they build one", 2)
+	saveFn := p.FuncDecl(pkgCallbacks, "saveAssociations").Obj
+	for _, rootName := range []string{"SaveBeforeAssociations", "SaveAfterAssociations"} {
+		root := p.FuncDecl(pkgCallbacks, rootName)
+		for _, f := range p.AllLits(root) {
+			info := f.Pkg.TypesInfo
+			parents := parentMap(f.Body)
+			// distinct lists: X = reflect.Append(X, ..) under an `if` whose condition indexes a map[string]bool
+			type dl struct {
+				obj   types.Object
+				scope ast.Node // enclosing case clause / block
+			}
+			var dls []dl
+			relT := types.NewPointer(p.Named(pkgSchema, "Relationship"))
+			scopeOf := func(n ast.Node) ast.Node {
+				// the arm handling one kind of destination for one relation: the nearest case clause, else the loop over
+				// the relations of one kind
+				for cur := parents[n]; cur != nil; cur = parents[cur] {
+					switch x := cur.(type) {
+					case *ast.CaseClause:
+						return x
+					case *ast.RangeStmt:
+						if id, ok := x.Value.(*ast.Ident); ok && types.Identical(info.TypeOf(id), relT) {
+							return x
+						}
+					}
+				}
+				return f.Body
+			}
+			ast.Inspect(f.Body, func(n ast.Node) bool {
+				as, ok := n.(*ast.AssignStmt)
+				if !ok || len(as.Lhs) != 1 || len(as.Rhs) != 1 {
+					return true
+				}
+				id, ok := unparen(as.Lhs[0]).(*ast.Ident)
+				ce, ok2 := unparen(as.Rhs[0]).(*ast.CallExpr)
+				if !ok || !ok2 || calleeName(info, ce) != "reflect.Append" {
+					return true
+				}
+				for cur := parents[as]; cur != nil; cur = parents[cur] {
+					ifs, ok := cur.(*ast.IfStmt)
+					if !ok {
+						continue
+					}
+					dedupe := false
+					ast.Inspect(ifs.Cond, func(m ast.Node) bool {
+						if ix, ok := m.(*ast.IndexExpr); ok {
+							if mt, ok := info.TypeOf(ix.X).Underlying().(*types.Map); ok {
+								if b, ok := mt.Elem().Underlying().(*types.Basic); ok && b.Kind() == types.Bool {
+									dedupe = true
+								}
+							}
+						}
+						return true
+					})
+					if dedupe {
+						dls = append(dls, dl{info.ObjectOf(id), scopeOf(as)})
+						break
+					}
+				}
+				return true
+			})
+			for _, call := range callsIn(f) {
+				if fn, _ := typeutil.Callee(info, call).(*types.Func); fn != saveFn || len(call.Args) < 3 {
+					continue
+				}
+				sc := scopeOf(call)
+				for _, d := range dls {
+					if d.scope != sc {
+						continue
+					}
+					c.Touch(root)
+					aid, ok := unparen(call.Args[2]).(*ast.Ident)
+					r.Check(ok && info.ObjectOf(aid) == d.obj, f.Name(), "records saved for a slice of parents", call.Pos(), "the de-duplicated list "+d.obj.Name(), "saveAssociations receives `"+types.ExprString(call.Args[2])+"` although a de-duplicated list ("+d.obj.Name()+") was built next to it: a record shared by several parents is saved once per parent and its hooks fire that many times")
+				}
+			}
+		}
+	}
+}
+
+// C14.tx-nil-guard: in prepared-statement mode a failed Begin still hands out a PreparedStmtTX whose Tx holds a TYPED
+// nil *sql.Tx (the interface is non-nil); "a clean error" for Commit/Rollback on it needs the reflect IsNil test that
+// (*DB).Commit/Rollback also make.  Decided with guard facts: every forward to the wrapped transaction's Commit /
+// Rollback in PreparedStmtTX is under the fact that reflect.ValueOf(tx.Tx).IsNil() is false.
+func checkC14TxNilGuard(c *Ctx) {
+	p := c.P
+	r := c.Rule("C14.tx-nil-guard", "PreparedStmtTX.Commit/Rollback forward to the wrapped transaction only when it is not a typed nil", 2)
+	for _, name := range []string{"Commit", "Rollback"} {
+		f := p.MethodDecl(pkgGorm, "PreparedStmtTX", name)
+		c.Touch(f)
+		info := f.Pkg.TypesInfo
+		gs := p.Guards(f, nil)
+		n := 0
+		for _, call := range callsIn(f) {
+			fn, _ := typeutil.Callee(info, call).(*types.Func)
+			k, _, ok := p.driverCallee(fn)
+			if !ok || !((name == "Commit" && k == DrvCommit) || (name == "Rollback" && k == DrvRollback)) {
+				continue
+			}
+			n++
+			facts, live := gs.At(call.Pos())
+			okg := false
+			for fct := range facts {
+				if strings.HasPrefix(fct, "F:") && strings.Contains(fct, "IsNil()") {
+					okg = true
+				}
+			}
+			r.Check(!live || okg, f.Name(), "forward to the wrapped transaction", call.Pos(), "under !reflect.ValueOf(tx.Tx).IsNil()", "PreparedStmtTX."+name+" calls the wrapped transaction without the typed-nil test: after a failed Begin in prepared-statement mode (the wrapper holds a typed nil *sql.Tx) "+name+" panics with a nil dereference instead of returning an error")
+		}
+		if n == 0 {
+			r.Bad(f.Name(), "forward", f.Body.Pos(), "PreparedStmtTX."+name+" no longer forwards to the wrapped transaction")
+		}
+	}
+}
+
+// C16.donothing-wins: an OnConflict rule with DoNothing set leaves colliding rows untouched whatever else the rule
+// carries.  Decided by truth table in clause.OnConflict.Build: the guard of WriteString("DO NOTHING") is true for
+// every assignment of its atoms in which onConflict.DoNothing is true.
+func checkC16DoNothingWins(c *Ctx) {
+	p := c.P
+	r := c.Rule("C16.donothing-wins", "OnConflict.Build renders DO NOTHING whenever DoNothing is set", 1)
+	f := p.MethodDecl(pkgClause, "OnConflict", "Build")
+	c.Touch(f)
+	info := f.Pkg.TypesInfo
+	recv := recvName(f)
+	n := 0
+	ast.Inspect(f.Body, func(x ast.Node) bool {
+		ifs, ok := x.(*ast.IfStmt)
+		if !ok {
+			return true
+		}
+		writes := false
+		for _, st := range ifs.Body.List {
+			ast.Inspect(st, func(m ast.Node) bool {
+				if ce, ok := m.(*ast.CallExpr); ok && len(ce.Args) == 1 {
+					if s, ok := constString(info, ce.Args[0]); ok && strings.TrimSpace(s) == "DO NOTHING" {
+						writes = true
+					}
+				}
+				return true
+			})
+		}
+		if !writes {
+			return true
+		}
+		n++
+		bf := boolTable(info, ifs.Cond)
+		atom := recv + ".DoNothing"
+		okf := false
+		if bf.has(atom) {
+			okf, _ = bf.forAll(map[string]bool{atom: true}, true)
+		}
+		r.Check(okf, f.Name(), "DO NOTHING arm", ifs.Pos(), "taken for every rule with DoNothing set", "OnConflict.Build renders DO NOTHING only when further conditions hold besides DoNothing: a rule with DoNothing set and assignments present (or UpdateAll expanded) becomes DO UPDATE SET ... and colliding rows are overwritten")
+		return true
+	})
+	if n == 0 {
+		r.Bad(f.Name(), "DO NOTHING arm", f.Body.Pos(), "OnConflict.Build has no DO NOTHING arm; rule lost its anchor")
+	}
+}
+
+// C17.side-writers: the Before/After request of a registration record is written by the registration API
+// ((*callback).Before/After/Replace and the processor's constructors) and, under the keep-constraints rule, by the
+// sorter.  Nothing else - in particular not the purge of removed callbacks - edits the requests of surviving records.
+func checkC17SideWriters(c *Ctx) {
+	p := c.P
+	r := c.Rule("C17.side-writers", "callback.before/after are written only by Before/After/Replace, the processor's constructors and the sorter", 4)
+	cbT := p.Named(pkgGorm, "callback")
+	beforeF, afterF := p.Field(cbT, "before"), p.Field(cbT, "after")
+	allowed := map[string]bool{"gorm.(*callback).Before": true, "gorm.(*callback).After": true, "gorm.(*callback).Replace": true, "gorm.sortCallbacks": true}
+	for _, f := range p.FuncsOf(pkgGorm, pkgCallbacks) {
+		if f.Body == nil {
+			continue
+		}
+		info := f.Pkg.TypesInfo
+		ast.Inspect(f.Body, func(n ast.Node) bool {
+			if fl, ok := n.(*ast.FuncLit); ok && fl != f.Lit {
+				return false
+			}
+			as, ok := n.(*ast.AssignStmt)
+			if !ok {
+				return true
+			}
+			for _, l := range as.Lhs {
+				sel, ok := unparen(l).(*ast.SelectorExpr)
+				if !ok || !(fieldSel(info, sel, beforeF) || fieldSel(info, sel, afterF)) {
+					continue
+				}
+				c.Touch(f)
+				rootName := rootFunc(f).Name()
+				r.Check(allowed[rootName], f.Name(), "writes ."+sel.Sel.Name, as.Pos(), "registration API / sorter", "the Before/After request of a registration record is rewritten in "+f.Name()+": a surviving callback loses (or changes) the side it asked for - e.g. after Remove(N) and a new Register(N) a callback registered After(N) runs before N")
+			}
+			return true
+		})
+	}
+}
+
+// C19.batch-tx: ToSQL and DryRun sessions run with SkipDefaultTransaction; CreateInBatches opens its explicit
+// transaction around several batches only when the default transaction is wanted.  Decided with guard facts: the
+// call of (*DB).Transaction in CreateInBatches is under the fact that SkipDefaultTransaction is false.
+func checkC19BatchTx(c *Ctx) {
+	p := c.P
+	r := c.Rule("C19.batch-tx", "CreateInBatches opens its explicit transaction only under !SkipDefaultTransaction (ToSQL / DryRun sessions begin nothing)", 1)
+	f := p.MethodDecl(pkgGorm, "DB", "CreateInBatches")
+	c.Touch(f)
+	info := f.Pkg.TypesInfo
+	txM := p.Method(p.Named(pkgGorm, "DB"), "Transaction")
+	gs := p.Guards(f, nil)
+	n := 0
+	for _, call := range callsIn(f) {
+		if fn, _ := typeutil.Callee(info, call).(*types.Func); fn != txM {
+			continue
+		}
+		n++
+		facts, live := gs.At(call.Pos())
+		okg := false
+		for fct := range facts {
+			if strings.HasPrefix(fct, "F:") && strings.HasSuffix(fct, "SkipDefaultTransaction") {
+				okg = true
+			}
+		}
+		r.Check(!live || okg, f.Name(), "explicit transaction around the batches", call.Pos(), "only under !SkipDefaultTransaction", "CreateInBatches wraps its batches in Transaction(...) without testing SkipDefaultTransaction: a ToSQL / DryRun batch insert with more rows than the batch size begins and commits a real transaction on the driver")
+	}
+	if n == 0 {
+		r.OK(f.Name(), "no explicit transaction", f.Body.Pos(), "CreateInBatches does not call Transaction")
+	}
+}
+
+// C20.index-lookup: HasIndex / CreateIndex resolve the name they are given through Schema.LookIndex - an index name,
+// or the Go name of an indexed field.  Column names are not a third key space (an index may be NAMED like a column of
+// another index).  Decided: every comparison with the parameter in LookIndex compares a `.Name` field.
+func checkC20IndexLookup(c *Ctx) {
+	p := c.P
+	r := c.Rule("C20.index-lookup", "Schema.LookIndex matches index names and Go field names only", 2)
+	f := p.MethodDecl(pkgSchema, "Schema", "LookIndex")
+	c.Touch(f)
+	info := f.Pkg.TypesInfo
+	var param types.Object
+	if ps := f.Decl.Type.Params.List; len(ps) == 1 && len(ps[0].Names) == 1 {
+		param = info.Defs[ps[0].Names[0]]
+	}
+	n := 0
+	ast.Inspect(f.Body, func(x ast.Node) bool {
+		be, ok := x.(*ast.BinaryExpr)
+		if !ok || be.Op != token.EQL {
+			return true
+		}
+		var other ast.Expr
+		if id, ok := unparen(be.Y).(*ast.Ident); ok && info.Uses[id] == param {
+			other = be.X
+		} else if id, ok := unparen(be.X).(*ast.Ident); ok && info.Uses[id] == param {
+			other = be.Y
+		}
+		if other == nil {
+			return true
+		}
+		n++
+		sel, ok := unparen(other).(*ast.SelectorExpr)
+		r.Check(ok && sel.Sel.Name == "Name", f.Name(), "name compared with "+types.ExprString(other), be.Pos(), "an index name or a Go field name", "LookIndex also matches `"+types.ExprString(other)+"`: an index NAMED like the column of another index resolves to that other index - HasIndex reports it as present and AutoMigrate never creates it")
+		return true
+	})
+	if n == 0 {
+		r.Bad(f.Name(), "comparisons", f.Body.Pos(), "LookIndex no longer compares its parameter; rule lost its anchor")
+	}
+}
+
+// receiverIsHandle: the receiver of the chain call is a local whose value was last produced by a handle maker
+// (Session / WithContext / Debug / Begin): such a handle copies its statement on the next chain call, so a discarded
+// result is a lost effect.  A receiver produced by a chain method (Model, Where, ...) or getInstance is an instance
+// under construction - chain calls extend it in place and may stand alone.
+func receiverIsHandle(p *Program, f *FuncSrc, info *types.Info, ce *ast.CallExpr) bool {
+	sel, ok := ce.Fun.(*ast.SelectorExpr)
+	if !ok {
+		return false
+	}
+	id, ok := unparen(sel.X).(*ast.Ident)
+	if !ok {
+		return false
+	}
+	obj := info.ObjectOf(id)
+	isHandleMaker := func(e ast.Expr) bool {
+		if rc, ok := unparen(e).(*ast.CallExpr); ok {
+			if rs, ok := rc.Fun.(*ast.SelectorExpr); ok {
+				switch rs.Sel.Name {
+				case "Session", "WithContext", "Debug", "Begin":
+					return true
+				}
+			}
+		}
+		return false
+	}
+	// reaching definitions of the receiver at the call, over the CFG of the function that contains it
+	g := p.CFG(f)
+	if g == nil {
+		return false
+	}
+	preds := map[*cfg.Block][]*cfg.Block{}
+	for _, b := range g.Blocks {
+		for _, sc := range b.Succs {
+			preds[sc] = append(preds[sc], b)
+		}
+	}
+	defOf := func(n ast.Node) (ast.Expr, bool) {
+		var rhs ast.Expr
+		found := false
+		ast.Inspect(n, func(m ast.Node) bool {
+			if _, ok := m.(*ast.FuncLit); ok {
+				return false
+			}
+			if as, ok := m.(*ast.AssignStmt); ok && len(as.Lhs) == len(as.Rhs) {
+				for i, l := range as.Lhs {
+					if lid, ok := unparen(l).(*ast.Ident); ok && info.ObjectOf(lid) == obj {
+						rhs, found = as.Rhs[i], true
+					}
+				}
+			}
+			return true
+		})
+		return rhs, found
+	}
+	var start *cfg.Block
+	startIdx := -1
+	for _, b := range g.Blocks {
+		for i, n := range b.Nodes {
+			if containsNode(n, ce) {
+				start, startIdx = b, i
+			}
+		}
+	}
+	if start == nil {
+		return false
+	}
+	handle := false
+	seen := map[*cfg.Block]bool{}
+	var back func(b *cfg.Block, from int)
+	back = func(b *cfg.Block, from int) {
+		for i := from; i >= 0; i-- {
+			if rhs, ok := defOf(b.Nodes[i]); ok {
+				if isHandleMaker(rhs) {
+					handle = true
+				}
+				return
+			}
+		}
+		for _, pb := range preds[b] {
+			if !seen[pb] {
+				seen[pb] = true
+				back(pb, len(pb.Nodes)-1)
+			}
+		}
+	}
+	back(start, startIdx-1)
+	return handle
 }
